@@ -254,9 +254,13 @@ class Server:
         args += list(extra)
         self.outpath = os.path.join(sandbox.base, "..", "tftpd-%d.out" % self.port)
         self.out = open(self.outpath, "wb")
+        # stderr apart: the server writes an eprintln! in several pieces, which would interleave with
+        # the listener's println! lines if both went to one file
+        self.errpath = self.outpath + ".err"
+        self.err = open(self.errpath, "wb")
         env = dict(os.environ)
         env.pop("RUST_BACKTRACE", None)
-        self.proc = subprocess.Popen(args, stdout=self.out, stderr=subprocess.STDOUT, env=env, cwd=sandbox.base)
+        self.proc = subprocess.Popen(args, stdout=self.out, stderr=self.err, env=env, cwd=sandbox.base)
         # wait until it answers: a read request for a file that is not there gets ERROR 1
         deadline = time.time() + 10
         s = socket.socket(socket.AF_INET6 if ":" in host else socket.AF_INET, socket.SOCK_DGRAM)
@@ -272,7 +276,7 @@ class Server:
                 time.sleep(0.02)
         s.close()
         if not ok:
-            raise C.ToolError("tftpd did not start: %s" % open(self.outpath, "rb").read()[-500:])
+            raise C.ToolError("tftpd did not start: %s" % self.output()[-500:])
 
     def alive(self):
         return self.proc.poll() is None
@@ -285,11 +289,28 @@ class Server:
             self.proc.kill()
         self.proc.wait()
         self.out.close()
+        self.err.close()
+
+    def _read(self, path):
+        with open(path, "rb") as f:
+            return f.read().decode("utf-8", "replace")
 
     def output(self):
-        self.out.flush()
+        """everything the server has written: stdout, then stderr"""
+        return self._read(self.outpath) + self._read(self.errpath)
+
+    def mark(self):
+        """a position in the server's output; see output_since"""
+        return (os.path.getsize(self.outpath), os.path.getsize(self.errpath))
+
+    def output_since(self, mark):
         with open(self.outpath, "rb") as f:
-            return f.read().decode("utf-8", "replace")
+            f.seek(mark[0])
+            a = f.read()
+        with open(self.errpath, "rb") as f:
+            f.seek(mark[1])
+            b = f.read()
+        return a.decode("utf-8", "replace") + b.decode("utf-8", "replace")
 
     def cfg_event(self, **more):
         ev = {"e": "cfg"}
